@@ -68,26 +68,45 @@ def verify(d):
         shutil.rmtree(base, ignore_errors=True)
 
 
-def run(d, tier="quick", props=None):
+def run(d, tier="quick", props=None, inplace=False):
+    """Run the check(s) of the broken property against the patched tree.
+    Default: a scratch worktree of /repo's HEAD with the patch applied, selected through VERIF_REPO (so that checks of
+    other properties running concurrently never see the mutant). --inplace: git -C /repo apply … checkout -- . as the
+    task brief describes (only when nothing else is running)."""
     d = os.path.abspath(d)
     meta = json.load(open(os.path.join(d, "meta.json")))
     props = props or [meta["property"]]
-    rc, out = sh(["git", "-C", REPO, "status", "--porcelain", "--untracked-files=no"])
-    if out.strip():
-        raise RuntimeError("/repo has uncommitted changes; refusing to apply a seeded patch:\n" + out)
-    rc, out = sh(["git", "-C", REPO, "apply", os.path.join(d, "patch.diff")])
+    env = dict(os.environ)
+    tree = None
+    if inplace:
+        rc, out = sh(["git", "-C", REPO, "status", "--porcelain", "--untracked-files=no"])
+        if out.strip():
+            raise RuntimeError("/repo has uncommitted changes; refusing to apply a seeded patch:\n" + out)
+        rc, out = sh(["git", "-C", REPO, "apply", os.path.join(d, "patch.diff")])
+    else:
+        tree = tempfile.mkdtemp(prefix="seedrun.", dir="/var/tmp")
+        os.rmdir(tree)
+        make_tree(tree)
+        rc, out = sh(["git", "apply", os.path.join(d, "patch.diff")], cwd=tree)
+        env["VERIF_REPO"] = tree
     if rc != 0:
+        if tree: drop_tree(tree)
         return {"applied": False, "output": out[-1500:]}
-    res = {"applied": True, "checks": {}}
+    res = {"applied": True, "mode": "inplace" if inplace else "scratch-worktree", "checks": {}}
     try:
         for p in props:
             t = time.time()
-            rc, out = sh(["python3", os.path.join(ROOT, "check.py"), p, "--tier", tier], cwd=ROOT, timeout=7200)
+            pr = subprocess.run(["python3", os.path.join(ROOT, "check.py"), p, "--tier", tier], cwd=ROOT, env=env,
+                                stdout=subprocess.PIPE, stderr=subprocess.STDOUT, text=True, errors="replace", timeout=7200)
+            rc, out = pr.returncode, pr.stdout
             vl = [l for l in out.split("\n") if l.startswith("VIOLATION")]
             res["checks"][p] = {"exit": rc, "violation_line": vl[0] if vl else None, "wall_s": round(time.time() - t, 1),
                                 "tail": out[-800:]}
     finally:
-        sh(["git", "-C", REPO, "checkout", "--", "."])
+        if inplace:
+            sh(["git", "-C", REPO, "checkout", "--", "."])
+        else:
+            drop_tree(tree)
     res["detected"] = any(c["exit"] == 1 and c["violation_line"] for c in res["checks"].values())
     json.dump(res, open(os.path.join(d, "result.json"), "w"), indent=1)
     return res
@@ -99,13 +118,14 @@ def main():
     ap.add_argument("dir", nargs="?")
     ap.add_argument("--tier", default="quick")
     ap.add_argument("--props", default=None)
+    ap.add_argument("--inplace", action="store_true")
     a = ap.parse_args()
     if a.cmd == "verify":
         r = verify(a.dir)
         json.dump(r, open(os.path.join(a.dir, "verify.json"), "w"), indent=1)
         print(json.dumps(r, indent=1))
     elif a.cmd == "run":
-        r = run(a.dir, a.tier, a.props.split(",") if a.props else None)
+        r = run(a.dir, a.tier, a.props.split(",") if a.props else None, a.inplace)
         print(json.dumps({k: v for k, v in r.items() if k != "checks"} | {"checks": {p: {kk: vv for kk, vv in c.items() if kk != "tail"} for p, c in r.get("checks", {}).items()}}, indent=1))
     else:
         sd = os.path.join(ROOT, "seeded")
